@@ -60,6 +60,8 @@ void mcs_replay(const struct mcs_cfg *cfg, const char *schedule, struct mcs_stat
 
 /* symbol (or symbol+offset) of an address inside the executable, for reports */
 const char *mcs_symbol(uintptr_t addr, char *buf, size_t n);
+/* address of a symbol of the executable (statics included), NULL if there is none of that name */
+void *mcs_symbol_addr(const char *name);
 /* the globals written during executions so far (for evidence) */
 int mcs_written_globals(char *buf, size_t n);
 
